@@ -505,7 +505,14 @@ class Env:
         for (t, name) in keys:
             for c in live:
                 if r.random() < 0.8:
-                    if r.random() < 0.5:
+                    k1 = r.random()
+                    if k1 < 0.25:
+                        # first the synchronous optional lookup, then the asynchronous one: they agree on what is there
+                        plan.append({"op": "GetNowait", "c": c, "t": t, "name": name, "optional": True})
+                        plan.append({"op": "GetBegin", "c": c, "tok": self.next_tok, "t": t, "name": name,
+                                     "optional": r.random() < 0.5})
+                        self.next_tok += 1
+                    elif k1 < 0.6:
                         plan.append({"op": "GetNowait", "c": c, "t": t, "name": name, "optional": r.random() < 0.5})
                     else:
                         plan.append({"op": "GetBegin", "c": c, "tok": self.next_tok, "t": t, "name": name,
